@@ -974,6 +974,8 @@ def r6(ctx):
             for gen in n.generators:
                 if _iter_base(gen.iter) & {tu}:
                     key_names |= _target_names(gen.target)
+        elif isinstance(n, ast.For) and _iter_base(n.iter) & {tu}:
+            key_names |= _target_names(n.target)
     tests = _namespace_tests(f.node, key_names, extra_namespaces=(params,))
     fam = [m for n, m in ctx.index.cls(BASE).methods.items() if n.startswith(EXPANDERS_PREFIX)]
     for m in fam:
@@ -984,6 +986,9 @@ def r6(ctx):
                 made.add(nm)
                 for gen in v.generators:
                     made |= _target_names(gen.target)
+        for n in ast.walk(m.node):
+            if isinstance(n, ast.For) and _iter_base(n.iter) & made:
+                made |= _target_names(n.target)
         tests += _namespace_tests(m.node, made | {"name"}, extra_namespaces=(params,))
     ctx.check(bool(tests), f"{f.key}:expanded-names-checked-against-existing",
               f"`{unparse(ups[0])}` adds the generated names `<name>_<i>` of the IN elements to the parameter dictionary "
